@@ -90,6 +90,19 @@ def hash(x):
 
 format = "fmt-1"
 
+if SCALE > 0:
+    def defined_under_if():
+        return 9500
+else:
+    def defined_under_if():
+        return -1
+
+try:
+    def defined_under_try():
+        return 9600
+except ImportError:
+    defined_under_try = None
+
 @functools.lru_cache(maxsize=None)
 def memo_rate(x):
     return x + 3000
@@ -136,7 +149,7 @@ import dds
 from . import helpers
 from .helpers import scaled as sc, sort_key as skey, Conf
 from .helpers import hash, format
-from .helpers import memo_rate, wrapped_value
+from .helpers import memo_rate, wrapped_value, defined_under_if, defined_under_try
 from . import consts
 from .consts import UNITF as UNITF_D, ZEROF as ZEROF_D, STAGES as STAGES_D
 from .consts import BATCH as BATCH_D, RATE as RATE_D, TAGS as TAGS_D, FROZEN as FROZEN_D
@@ -193,7 +206,7 @@ def reader():
 
 def leaf_wrapped():
     CALLS.append("leaf_wrapped")
-    return memo_rate(1), wrapped_value()
+    return memo_rate(1), wrapped_value(), defined_under_if(), defined_under_try()
 
 def leaf_order():
     CALLS.append("leaf_order")
@@ -346,6 +359,8 @@ EDITS = [
     ("static method body", "corp/helpers.py", "return 55", "return 56", ["/c/method", "/c/rt"]),
     ("body of a helper behind functools.lru_cache", "corp/helpers.py", "return x + 3000", "return x + 3001", ["/c/wrapped", "/c/rt"]),
     ("body of the wrapper that a decorator installs around a helper", "corp/helpers.py", "return fn(*a, **k) + 4000", "return fn(*a, **k) + 4001", ["/c/wrapped", "/c/rt"]),
+    ("body of a helper defined under an if at module level", "corp/helpers.py", "return 9500", "return 9501", ["/c/wrapped", "/c/rt"]),
+    ("body of a helper defined under a try at module level", "corp/helpers.py", "return 9600", "return 9601", ["/c/wrapped", "/c/rt"]),
     ("body of a helper under a functools.wraps decorator", "corp/helpers.py", "def wrapped_value():\n    return 1", "def wrapped_value():\n    return 2", ["/c/wrapped", "/c/rt"]),
     ("method inherited from a base class of the package", "corp/helpers.py", "return 800 + self.deep()", "return 801 + self.deep()", ["/c/method", "/c/rt"]),
     ("method inherited from the base class of the base class", "corp/helpers.py", "return 900", "return 901", ["/c/method", "/c/rt"]),
